@@ -22,6 +22,7 @@ from pedal.sandbox.constants import TOOL_NAME
 from pedal.sandbox.feedbacks import runtime_error, EXCEPTION_FF_MAP
 from pedal.sandbox.exceptions import SandboxHasNoFunction, SandboxHasNoVariable
 from pedal.sandbox.timeout import timeout
+from pedal.sandbox.timeout import _verif_sync
 from pedal.sandbox.result import SandboxResult
 from pedal.sandbox.tracer import TRACER_STYLES
 
@@ -549,9 +550,11 @@ class Sandbox:
 
     def _stop_mocking(self, context: SandboxContext):
         """ Turn off any patches, store output """
+        _verif_sync("finalize:enter")
         self._stop_patches()
         current_stdout = self._current_stdout.pop()
         self.append_output(current_stdout.getvalue(), context)
+        _verif_sync("finalize:exit")
 
     # Patching Functionality
     def _start_patches(self, *patches):
